@@ -10,6 +10,10 @@
 //         | & ^ ~ (bitfield and element overloads) and |= &= ^=, is_subset_eq, ==, !=, bitfield::hash.
 // Observed only: std::hash specialisation, underlying_value, the array constructor/accessor, proxy = proxy,
 //         number of distinct hash values.
+//
+// Attribution: a violation is reported at the first operation whose result diverges; a result that failed is
+// not used as an operand of further judged operations (counted in skipped/... and .../stopped-at-first-violation),
+// so that one defect does not show up under the keys of every operator that merely consumed its output.
 #include <vf.hpp>
 
 #include <fcppt/container/bitfield/comparison.hpp>
